@@ -3,4 +3,522 @@ import DswModel.Lemmas.Defs
 /-! Helper lemmas for `repair_dna` / `path_matching` (C09, C10, C08). -/
 namespace Dsw
 
+/-! ## `Except` folds and maps -/
+
+theorem R.bind_ok {α β} (x : R α) (f : α → R β) (b : β) (h : x.bind f = .ok b) :
+    ∃ y, x = .ok y ∧ f y = .ok b := by
+  cases x with
+  | error e => simp [Except.bind] at h
+  | ok y => exact ⟨y, rfl, h⟩
+
+theorem R.bind_eq_ok {α β} (x : R α) (f : α → R β) (b : β) (h : x >>= f = .ok b) :
+    ∃ y, x = .ok y ∧ f y = .ok b := R.bind_ok x f b h
+
+/-- invariant rule for a successful `foldlM`. -/
+theorem foldlM_ok_inv {α β} (f : β → α → R β) (P : β → Prop) :
+    ∀ (l : List α) (b r : β), (∀ acc x r, x ∈ l → P acc → f acc x = .ok r → P r) →
+      P b → l.foldlM f b = .ok r → P r := by
+  intro l
+  induction l with
+  | nil => intro b r _ hb h; simp [pure, Except.pure] at h; exact h ▸ hb
+  | cons x xs ih =>
+    intro b r hstep hb h
+    rw [List.foldlM_cons] at h
+    obtain ⟨y, hy, h⟩ := R.bind_eq_ok _ _ _ h
+    exact ih y r (fun acc x' r' hx' => hstep acc x' r' (List.mem_cons_of_mem _ hx'))
+      (hstep b x y List.mem_cons_self hb hy) h
+
+/-- totality rule for `foldlM`: if every step from a state satisfying `P` succeeds and
+re-establishes `P`, the fold succeeds. -/
+theorem foldlM_total {α β} (f : β → α → R β) (P : β → Prop) :
+    ∀ (l : List α) (b : β), (∀ acc x, x ∈ l → P acc → ∃ r, f acc x = .ok r ∧ P r) →
+      P b → ∃ r, l.foldlM f b = .ok r ∧ P r := by
+  intro l
+  induction l with
+  | nil => intro b _ hb; exact ⟨b, rfl, hb⟩
+  | cons x xs ih =>
+    intro b hstep hb
+    obtain ⟨y, hy, hP⟩ := hstep b x List.mem_cons_self hb
+    rw [List.foldlM_cons, hy]
+    exact ih y (fun acc x' hx' => hstep acc x' (List.mem_cons_of_mem _ hx')) hP
+
+theorem mapM_ok_mem {α β} (f : α → R β) : ∀ (l : List α) (r : List β), l.mapM f = .ok r →
+    ∀ y ∈ r, ∃ x ∈ l, f x = .ok y := by
+  intro l
+  induction l with
+  | nil => intro r h; simp [pure, Except.pure] at h; subst h; simp
+  | cons x xs ih =>
+    intro r h y hy
+    rw [List.mapM_cons] at h
+    obtain ⟨z, hz, h⟩ := R.bind_eq_ok _ _ _ h
+    obtain ⟨zs, hzs, h⟩ := R.bind_eq_ok _ _ _ h
+    simp [pure, Except.pure] at h
+    subst h
+    rcases List.mem_cons.mp hy with rfl | hy
+    · exact ⟨x, List.mem_cons_self, hz⟩
+    · obtain ⟨x', hx', e⟩ := ih zs hzs y hy
+      exact ⟨x', List.mem_cons_of_mem _ hx', e⟩
+
+theorem mapM_total {α β} (f : α → R β) : ∀ (l : List α), (∀ x ∈ l, ∃ y, f x = .ok y) →
+    ∃ r, l.mapM f = .ok r := by
+  intro l
+  induction l with
+  | nil => intro _; exact ⟨[], rfl⟩
+  | cons x xs ih =>
+    intro h
+    obtain ⟨y, hy⟩ := h x List.mem_cons_self
+    obtain ⟨r, hr⟩ := ih (fun x' hx' => h x' (List.mem_cons_of_mem _ hx'))
+    rw [List.mapM_cons, hy, hr]
+    exact ⟨y :: r, rfl⟩
+
+/-! ## lists: `eraseDups`, insertion sort, Python string order -/
+
+theorem nodup_eraseDups {α} [BEq α] [LawfulBEq α] : ∀ (n : Nat) (l : List α), l.length ≤ n →
+    l.eraseDups.Nodup := by
+  intro n
+  induction n with
+  | zero => intro l h; cases l <;> simp_all
+  | succ n ih =>
+    intro l h
+    cases l with
+    | nil => simp
+    | cons x xs =>
+      rw [List.eraseDups_cons, List.nodup_cons]
+      refine ⟨?_, ih _ ?_⟩
+      · simp [List.mem_eraseDups]
+      · have := List.length_filter_le (fun b => !b == x) xs
+        simp at h; omega
+
+theorem mem_insertSorted {α} (le : α → α → Bool) (x y : α) (l : List α) :
+    y ∈ insertSorted le x l ↔ y = x ∨ y ∈ l := by
+  induction l with
+  | nil => simp [insertSorted]
+  | cons z zs ih =>
+    simp only [insertSorted]
+    split
+    · simp
+    · simp [ih]; grind
+
+theorem isort_cons {α} (le : α → α → Bool) (z : α) (zs : List α) :
+    isort le (z :: zs) = insertSorted le z (isort le zs) := rfl
+
+theorem mem_isort {α} (le : α → α → Bool) (y : α) (l : List α) : y ∈ isort le l ↔ y ∈ l := by
+  induction l with
+  | nil => simp [isort]
+  | cons z zs ih =>
+    rw [isort_cons, mem_insertSorted, ih]; simp
+
+theorem pairwise_insertSorted {α} (le : α → α → Bool) (R : α → α → Prop)
+    (hle : ∀ x y, le x y = true → R x y) (hnle : ∀ x y, le x y = false → R y x)
+    (htr : ∀ x y z, R x y → R y z → R x z) (x : α) (l : List α)
+    (hl : l.Pairwise R) : (insertSorted le x l).Pairwise R := by
+  induction l with
+  | nil => simp [insertSorted]
+  | cons z zs ih =>
+    rw [List.pairwise_cons] at hl
+    simp only [insertSorted]
+    split
+    · rename_i h
+      refine List.pairwise_cons.mpr ⟨?_, List.pairwise_cons.mpr hl⟩
+      intro b hb
+      rcases List.mem_cons.mp hb with rfl | hb
+      · exact hle _ _ h
+      · exact htr _ _ _ (hle _ _ h) (hl.1 b hb)
+    · rename_i h
+      refine List.pairwise_cons.mpr ⟨?_, ih hl.2⟩
+      intro b hb
+      rcases (mem_insertSorted le x b zs).mp hb with rfl | hb
+      · exact hnle _ _ (by simpa using h)
+      · exact hl.1 b hb
+
+theorem nodup_insertSorted {α} (le : α → α → Bool) (x : α) (l : List α) (hx : x ∉ l)
+    (hl : l.Nodup) : (insertSorted le x l).Nodup := by
+  induction l with
+  | nil => simp [insertSorted]
+  | cons z zs ih =>
+    rw [List.nodup_cons] at hl
+    simp only [insertSorted]
+    split
+    · exact List.nodup_cons.mpr ⟨hx, List.nodup_cons.mpr hl⟩
+    · refine List.nodup_cons.mpr ⟨?_, ih (by simp at hx; exact hx.2) hl.2⟩
+      rw [mem_insertSorted]
+      simp at hx
+      rintro (rfl | h)
+      · exact hx.1 rfl
+      · exact hl.1 h
+
+theorem nodup_isort {α} (le : α → α → Bool) (l : List α) (hl : l.Nodup) : (isort le l).Nodup := by
+  induction l with
+  | nil => simp [isort]
+  | cons z zs ih =>
+    rw [List.nodup_cons] at hl
+    rw [isort_cons]
+    exact nodup_insertSorted le z _ (by rw [mem_isort]; exact hl.1) (ih hl.2)
+
+theorem strLe_total : ∀ x y : List Char, strLe x y = false → strLe y x = true
+  | [], _ => by simp [strLe]
+  | _ :: _, [] => by simp [strLe]
+  | x :: xs, y :: ys => by
+    simp only [strLe]
+    intro h
+    split at h
+    · simp at h
+    · split at h
+      · simp [*]
+      · rename_i h1 h2
+        simp only [h1, h2, if_false]
+        exact strLe_total xs ys h
+
+theorem strLe_trans : ∀ x y z : List Char, strLe x y = true → strLe y z = true → strLe x z = true
+  | [], _, _ => by simp [strLe]
+  | _ :: _, [], _ => by simp [strLe]
+  | _ :: _, _ :: _, [] => by simp [strLe]
+  | x :: xs, y :: ys, z :: zs => by
+    simp only [strLe]
+    intro h1 h2
+    by_cases a1 : x.toNat < y.toNat
+    · by_cases a2 : y.toNat < z.toNat
+      · have : x.toNat < z.toNat := by omega
+        simp [this]
+      · by_cases a3 : z.toNat < y.toNat
+        · simp [a2, a3] at h2
+        · have : x.toNat < z.toNat := by omega
+          simp [this]
+    · by_cases a1' : y.toNat < x.toNat
+      · simp [a1, a1'] at h1
+      · simp only [a1, a1', if_false] at h1
+        by_cases a2 : y.toNat < z.toNat
+        · have : x.toNat < z.toNat := by omega
+          simp [this]
+        · by_cases a3 : z.toNat < y.toNat
+          · simp [a2, a3] at h2
+          · simp only [a2, a3, if_false] at h2
+            have e1 : ¬ x.toNat < z.toNat := by omega
+            have e2 : ¬ z.toNat < x.toNat := by omega
+            simp only [e1, e2, if_false]
+            exact strLe_trans xs ys zs h1 h2
+
+/-- the output stage of `repairDna` is strictly increasing. -/
+theorem isort_eraseDups_pairwise (l : List (List Char)) :
+    (isort strLe l.eraseDups).Pairwise strLt := by
+  have hnd : (isort strLe l.eraseDups).Nodup := nodup_isort _ _ (nodup_eraseDups _ _ (Nat.le_refl _))
+  have hs : (isort strLe l.eraseDups).Pairwise (fun x y => strLe x y = true) := by
+    generalize l.eraseDups = m
+    induction m with
+    | nil => simp [isort]
+    | cons z zs ih =>
+      rw [isort_cons]
+      exact pairwise_insertSorted strLe _ (fun _ _ h => h) strLe_total strLe_trans z _ ih
+  exact (hs.and hnd).imp (fun h => h)
+
+/-! ## generic facts about the scan loop -/
+
+@[simp] theorem Scan.advance_loc (st : Scan) (c : Char) (t : Int) : (st.advance c t).loc = st.loc + 1 := rfl
+@[simp] theorem Scan.detect_loc (st : Scan) (k : Nat) (dna : List Char) :
+    (st.detect k dna).loc = st.loc + k + 1 := rfl
+
+theorem scanStep_cases (a : Acc) (k : Nat) (dna : List Char) (st : Scan) :
+    (∃ t, a.next st.v (dna.getD st.loc 'A') = some t ∧
+        scanStep a k dna st = st.advance (dna.getD st.loc 'A') t) ∨
+    (a.next st.v (dna.getD st.loc 'A') = none ∧ scanStep a k dna st = st.detect k dna) := by
+  cases h : a.next st.v (dna.getD st.loc 'A') with
+  | none => right; simp only [scanStep, h, and_self]
+  | some t => left; exact ⟨t, rfl, by simp only [scanStep, h]⟩
+
+theorem scanStep_loc_lt (a : Acc) (k : Nat) (dna : List Char) (st : Scan) :
+    st.loc < (scanStep a k dna st).loc := by
+  rcases scanStep_cases a k dna st with ⟨t, -, h⟩ | ⟨-, h⟩ <;> rw [h] <;> simp <;> omega
+
+theorem scan_done (a : Acc) (k : Nat) (dna : List Char) (fuel : Nat) (st : Scan)
+    (h : dna.length ≤ st.loc) : scan a k dna fuel st = some st := by
+  cases fuel <;> simp [scan, Nat.not_lt.mpr h]
+
+theorem scan_succ (a : Acc) (k : Nat) (dna : List Char) (fuel : Nat) (st : Scan)
+    (h : st.loc < dna.length) :
+    scan a k dna (fuel + 1) st = scan a k dna fuel (scanStep a k dna st) := by
+  simp [scan, h]
+
+/-- the invariant rule for the scan loop: a predicate preserved by every step taken inside the
+strand holds of the final state, which exists as soon as the fuel covers the remaining length. -/
+theorem scan_inv (a : Acc) (k : Nat) (dna : List Char) (P : Scan → Prop)
+    (hstep : ∀ st, P st → st.loc < dna.length → P (scanStep a k dna st)) :
+    ∀ (fuel : Nat) (st : Scan), P st → dna.length - st.loc ≤ fuel →
+      ∃ st', scan a k dna fuel st = some st' ∧ P st' ∧ dna.length ≤ st'.loc := by
+  intro fuel
+  induction fuel with
+  | zero =>
+    intro st hP hf
+    exact ⟨st, scan_done a k dna 0 st (by omega), hP, by omega⟩
+  | succ fuel ih =>
+    intro st hP hf
+    by_cases hlt : st.loc < dna.length
+    · rw [scan_succ a k dna fuel st hlt]
+      have := scanStep_loc_lt a k dna st
+      exact ih _ (hstep st hP hlt) (by omega)
+    · exact ⟨st, scan_done a k dna _ st (by omega), hP, by omega⟩
+
+/-- the initial scan state of `repairDna`. -/
+def Scan.init (dna : List Char) (v : Int) : Scan :=
+  { v := v, queue := List.replicate dna.length (-1) }
+
+/-- invariant rule specialised to the call made by `repairDna`. -/
+theorem scan_init_inv (a : Acc) (k : Nat) (dna : List Char) (v : Int) (P : Scan → Prop)
+    (h0 : P (Scan.init dna v))
+    (hstep : ∀ st, P st → st.loc < dna.length → P (scanStep a k dna st)) :
+    ∃ st', scan a k dna (dna.length + 1) (Scan.init dna v) = some st' ∧ P st' ∧
+      dna.length ≤ st'.loc :=
+  scan_inv a k dna P hstep _ _ h0 (by simp [Scan.init])
+
+/-- counting invariant: detections are `k + 1` apart and start inside the strand. -/
+structure ScanCount (k : Nat) (dna : List Char) (st : Scan) : Prop where
+  det_le : st.detected * (k + 1) ≤ st.loc
+  loc_le : st.loc ≤ dna.length + k
+  vis_le : st.visited ≤ st.loc ∧ st.visited ≤ dna.length
+  chunks_len : st.chunks.length = st.detected
+  markers_len : st.markers.length = st.detected
+
+theorem ScanCount.init (k : Nat) (dna : List Char) (v : Int) : ScanCount k dna (Scan.init dna v) := by
+  constructor <;> simp [Scan.init]
+
+theorem ScanCount.step (a : Acc) (k : Nat) (dna : List Char) (st : Scan)
+    (h : ScanCount k dna st) (hlt : st.loc < dna.length) : ScanCount k dna (scanStep a k dna st) := by
+  obtain ⟨h1, h2, ⟨h3, h3'⟩, h4, h5⟩ := h
+  rcases scanStep_cases a k dna st with ⟨t, -, e⟩ | ⟨-, e⟩ <;> rw [e]
+  · constructor <;> simp [Scan.advance] <;> omega
+  · constructor <;> simp [Scan.detect, Nat.add_mul] <;> omega
+
+/-! ## the shape of `repairDna` -/
+
+
+/-- the fragment-collection fold of `repairDna` over the recorded detections. -/
+def fragFold (a : Acc) (k : Nat) (dna : List Char) (hasIndel : Bool) (st : Scan) :
+    R (List (List (List Char)) × Nat) :=
+  (st.chunks.reverse.zip st.markers.reverse).foldlM
+    (fun (acc : List (List (List Char)) × Nat) (cm : List Char × List Int) => do
+      let r ← collectFragments a k dna cm.1 cm.2 hasIndel
+      pure (acc.1 ++ [r.1], acc.2 + r.2)) ([], st.visited)
+
+/-- one recombined candidate of `repairDna`. -/
+def candOf (splits : List (List Char)) (frs : List (List Char)) : List Char :=
+  (splits.zip frs).foldl (fun s (p : List Char × List Char) => s ++ p.1 ++ p.2) []
+    ++ splits.getLastD []
+
+def fragCount (fragSets : List (List (List Char))) : Nat := fragSets.foldl (fun c f => c * f.length) 1
+
+/-- what `repairDna` does after the scan and the fragment fold. -/
+def repairTail (dna : List Char) (chk : Option (List Char)) (heap : Nat) (st : Scan)
+    (fv : List (List (List Char)) × Nat) : R (List (List Char) × RepairStats) :=
+  if fragCount fv.1 = 0 ∨ fragCount fv.1 > heap then
+    (vtMatches dna chk).bind fun okc =>
+      if okc then pure ([dna], ⟨0, false, 0, fv.2⟩) else pure ([], ⟨0, true, 0, fv.2⟩)
+  else
+    (((product fv.1).map (candOf st.splits.reverse)).mapM
+        fun c => (vtMatches c chk).map fun b => (c, b)).bind fun checked =>
+      pure (isort strLe ((checked.filter (·.2)).map (·.1)).eraseDups,
+        ⟨st.detected, checked.any (fun cb => !cb.2), fragCount fv.1, fv.2⟩)
+
+theorem repairDna_eq (a : Acc) (dna : List Char) (start : Int) (k : Nat) (chk : Option (List Char))
+    (hasIndel : Bool) (heap : Nat) :
+    repairDna a dna start k chk hasIndel heap =
+      match scan a k dna (dna.length + 1) (Scan.init dna start) with
+      | none => .error .outOfFuel
+      | some st => (fragFold a k dna hasIndel st).bind (repairTail dna chk heap st) := by
+  unfold repairDna Scan.init
+  cases scan a k dna (dna.length + 1) { v := start, queue := List.replicate dna.length (-1) } with
+  | none => rfl
+  | some st => rfl
+
+/-- inversion of a successful `repairDna`. -/
+theorem repairDna_ok_inv {a : Acc} {dna : List Char} {start : Int} {k : Nat}
+    {chk : Option (List Char)} {hasIndel : Bool} {heap : Nat} {res : List (List Char) × RepairStats}
+    (h : repairDna a dna start k chk hasIndel heap = .ok res) :
+    ∃ st fv, scan a k dna (dna.length + 1) (Scan.init dna start) = some st ∧
+      fragFold a k dna hasIndel st = .ok fv ∧ repairTail dna chk heap st fv = .ok res := by
+  rw [repairDna_eq] at h
+  split at h
+  · cases h
+  · rename_i st hst
+    obtain ⟨fv, hfv, h⟩ := R.bind_ok _ _ _ h
+    exact ⟨st, fv, hst, hfv, h⟩
+
+theorem repairDna_of_scan {a : Acc} {dna : List Char} {start : Int} {k : Nat}
+    {chk : Option (List Char)} {hasIndel : Bool} {heap : Nat} {st : Scan}
+    {fv : List (List (List Char)) × Nat}
+    (hs : scan a k dna (dna.length + 1) (Scan.init dna start) = some st)
+    (hf : fragFold a k dna hasIndel st = .ok fv) :
+    repairDna a dna start k chk hasIndel heap = repairTail dna chk heap st fv := by
+  rw [repairDna_eq, hs]; simp only [hf]; rfl
+
+/-- inversion of a successful `repairTail`: either the fallback or the product path. -/
+theorem repairTail_ok_inv {dna : List Char} {chk : Option (List Char)} {heap : Nat} {st : Scan}
+    {fv : List (List (List Char)) × Nat} {res : List (List Char) × RepairStats}
+    (h : repairTail dna chk heap st fv = .ok res) :
+    (∃ okc, vtMatches dna chk = .ok okc ∧ res.1 = (if okc then [dna] else []) ∧
+        res.2.visited = fv.2) ∨
+    (∃ checked, ((product fv.1).map (candOf st.splits.reverse)).mapM
+          (fun c => (vtMatches c chk).map fun b => (c, b)) = .ok checked ∧
+        res.1 = isort strLe ((checked.filter (·.2)).map (·.1)).eraseDups ∧
+        res.2.visited = fv.2 ∧ res.2.detected = st.detected) := by
+  unfold repairTail at h
+  split at h
+  · left
+    obtain ⟨okc, hokc, h⟩ := R.bind_ok _ _ _ h
+    refine ⟨okc, hokc, ?_⟩
+    cases okc <;> simp [pure, Except.pure] at h <;> subst h <;> simp
+  · right
+    obtain ⟨checked, hc, h⟩ := R.bind_ok _ _ _ h
+    refine ⟨checked, hc, ?_⟩
+    simp [pure, Except.pure] at h; subst h; simp
+
+
+/-! ## arcs, walks, ACGT strings -/
+
+theorem Acc.next_eq_some {a : Acc} {v : Int} {c : Char} {t : Int} (h : a.next v c = some t) :
+    (nucIdx c).isSome = true ∧ t = a.ent v ((nucIdx c).getD 0) ∧ 0 ≤ t := by
+  unfold Acc.next at h
+  cases hj : nucIdx c with
+  | none => simp [hj] at h
+  | some j =>
+    simp only [hj] at h
+    split at h
+    · simp at h; subst h; simp; omega
+    · cases h
+
+theorem IsAcgt.nil : IsAcgt [] := by simp [IsAcgt]
+
+theorem IsAcgt.cons {c : Char} {s : List Char} : IsAcgt (c :: s) ↔ (nucIdx c).isSome = true ∧ IsAcgt s := by
+  simp [IsAcgt]
+
+theorem IsAcgt.append {s t : List Char} : IsAcgt (s ++ t) ↔ IsAcgt s ∧ IsAcgt t := by
+  simp only [IsAcgt, List.mem_append]
+  constructor
+  · intro h; exact ⟨fun c hc => h c (Or.inl hc), fun c hc => h c (Or.inr hc)⟩
+  · rintro ⟨h1, h2⟩ c (hc | hc); exact h1 c hc; exact h2 c hc
+
+theorem IsAcgt.of_subset {s t : List Char} (ht : IsAcgt t) (h : ∀ c ∈ s, c ∈ t) : IsAcgt s :=
+  fun c hc => ht c (h c hc)
+
+theorem nucIdx_nucChar (j : Nat) : (nucIdx (nucChar j)).isSome = true := by
+  unfold nucChar
+  split
+  · decide
+  · split
+    · decide
+    · split <;> decide
+
+theorem isWalk_isAcgt (a : Acc) : ∀ (s : List Char) (v : Int), isWalk a v s = true → IsAcgt s
+  | [], _, _ => IsAcgt.nil
+  | c :: s, v, h => by
+    simp only [isWalk] at h
+    split at h
+    · rename_i t ht
+      exact IsAcgt.cons.mpr ⟨(Acc.next_eq_some ht).1, isWalk_isAcgt a s t h⟩
+    · cases h
+
+theorem nucValues_ok : ∀ (s : List Char), IsAcgt s → ∃ vs, nucValues s = .ok vs
+  | [], _ => ⟨[], rfl⟩
+  | c :: s, h => by
+    obtain ⟨h1, h2⟩ := IsAcgt.cons.mp h
+    obtain ⟨vs, hvs⟩ := nucValues_ok s h2
+    obtain ⟨j, hj⟩ := Option.isSome_iff_exists.mp h1
+    exact ⟨j :: vs, by simp [nucValues, hj, hvs, Except.map]⟩
+
+/-- `set_vt` / the check comparison never raise on an ACGT string. -/
+theorem setVt_ok {s : List Char} (h : IsAcgt s) (n : Nat) : ∃ r, setVt s n = .ok r := by
+  obtain ⟨vs, hvs⟩ := nucValues_ok s h
+  simp only [setVt, hvs, Except.map]
+  exact ⟨_, rfl⟩
+
+theorem vtMatches_ok {s : List Char} (h : IsAcgt s) (chk : Option (List Char)) :
+    ∃ b, vtMatches s chk = .ok b := by
+  cases chk with
+  | none => exact ⟨true, rfl⟩
+  | some c =>
+    obtain ⟨r, hr⟩ := setVt_ok h c.length
+    exact ⟨r == c, by simp only [vtMatches, hr, Except.map]⟩
+
+theorem vtMatches_some_true {x c : List Char} (h : vtMatches x (some c) = .ok true) :
+    setVt x c.length = .ok c := by
+  simp only [vtMatches] at h
+  cases hs : setVt x c.length with
+  | error e => simp [hs, Except.map] at h
+  | ok r => simp [hs, Except.map] at h; rw [h]
+
+/-! ## scanning along a walk -/
+
+/-- the state after following the arcs spelled by `w`. -/
+def Scan.run (a : Acc) (st : Scan) : List Char → Scan
+  | [] => st
+  | c :: w => Scan.run a (st.advance c (a.ent st.v ((nucIdx c).getD 0))) w
+
+theorem Scan.run_fields (a : Acc) : ∀ (w : List Char) (st : Scan),
+    (st.run a w).loc = st.loc + w.length ∧ (st.run a w).v = walkEnd a st.v w ∧
+    (st.run a w).detected = st.detected ∧ (st.run a w).chunks = st.chunks ∧
+    (st.run a w).markers = st.markers ∧ (st.run a w).visited = st.visited + w.length ∧
+    (st.run a w).queue.length = st.queue.length
+  | [], st => by simp [Scan.run, walkEnd]
+  | c :: w, st => by
+    obtain ⟨h1, h2, h3, h4, h5, h6, h8⟩ := Scan.run_fields a w
+      (st.advance c (a.ent st.v ((nucIdx c).getD 0)))
+    simp only [Scan.run, walkEnd]
+    refine ⟨?_, h2, h3, h4, h5, ?_, ?_⟩
+    · rw [h1]; simp; omega
+    · rw [h6]; simp [Scan.advance]; omega
+    · rw [h8]; simp [Scan.advance]
+
+theorem Scan.run_splits (a : Acc) : ∀ (w : List Char) (st : Scan), st.splits ≠ [] →
+    (st.run a w).splits = (st.splits.headD [] ++ w) :: st.splits.tail
+  | [], st, h => by
+    cases hs : st.splits with
+    | nil => exact absurd hs h
+    | cons x xs => simp [Scan.run, hs]
+  | c :: w, st, h => by
+    simp only [Scan.run]
+    rw [Scan.run_splits a w _ (by simp [Scan.advance])]
+    simp [Scan.advance]
+
+/-- a walk that is a prefix of the unread strand is consumed without any detection. -/
+theorem scan_walk (a : Acc) (k : Nat) (dna : List Char) (fuel : Nat) :
+    ∀ (w : List Char) (st : Scan), isWalk a st.v w = true →
+      (∃ rest, dna.drop st.loc = w ++ rest) →
+      scan a k dna (fuel + w.length) st = scan a k dna fuel (st.run a w)
+  | [], st, _, _ => rfl
+  | c :: w, st, hw, ⟨rest, hr⟩ => by
+    have hlt : st.loc < dna.length := by
+      apply Nat.lt_of_not_le; intro hge
+      rw [List.drop_of_length_le hge] at hr; cases hr
+    have hc : dna.getD st.loc 'A' = c := by
+      have := List.getElem_drop (xs := dna) (i := st.loc) (j := 0) (h := by simp; omega)
+      simp only [hr] at this
+      simp [List.getD, List.getElem?_eq_getElem hlt]
+      simpa using this.symm
+    simp only [isWalk] at hw
+    split at hw
+    · rename_i t ht
+      have hstep : scanStep a k dna st = st.advance c (a.ent st.v ((nucIdx c).getD 0)) := by
+        simp only [scanStep, hc, ht, (Acc.next_eq_some ht).2.1]
+      have : fuel + (c :: w).length = (fuel + w.length) + 1 := by simp; omega
+      rw [this, scan_succ a k dna _ st hlt, hstep, Scan.run]
+      apply scan_walk a k dna fuel w
+      · simpa [Scan.advance, ← (Acc.next_eq_some ht).2.1] using hw
+      · refine ⟨rest, ?_⟩
+        have : dna.drop (st.loc + 1) = (dna.drop st.loc).drop 1 := by simp [List.drop_drop]
+        simp [Scan.advance, this, hr]
+    · cases hw
+
+
+/-- the scan of a strand that is a walk: no detection, one split. -/
+theorem scan_clean (a : Acc) (k : Nat) (s : List Char) (v : Int) (hw : isWalk a v s = true) :
+    ∃ st, scan a k s (s.length + 1) (Scan.init s v) = some st ∧ st.detected = 0 ∧
+      st.chunks = [] ∧ st.markers = [] ∧ st.splits = [s] ∧ st.visited = s.length ∧
+      st.v = walkEnd a v s ∧ st.loc = s.length := by
+  have h := scan_walk a k s 1 s (Scan.init s v) hw ⟨[], by simp [Scan.init]⟩
+  obtain ⟨h1, h2, h3, h4, h5, h6, -⟩ := Scan.run_fields a s (Scan.init s v)
+  have h7 := Scan.run_splits a s (Scan.init s v) (by simp [Scan.init])
+  refine ⟨(Scan.init s v).run a s, ?_, ?_⟩
+  · rw [Nat.add_comm, h]
+    exact scan_done a k s 1 _ (by rw [h1]; simp [Scan.init])
+  · simp [Scan.init] at h1 h2 h3 h4 h5 h6 h7
+    exact ⟨h3, h4, h5, h7, h6, h2, h1⟩
+
 end Dsw
